@@ -501,3 +501,5 @@ Definition check_case_tokens (k : list (string * string) * list (comp * (list st
 (* re.sub alone: (reference, replacement, text, result) *)
 Definition check_resub (k : string * string * string * string) : bool :=
   let '(ref, rep, s, out) := k in String.eqb (resub ref rep s) out.
+Definition check_case_both (k : list (string * string) * list (comp * (list string * list nat)) * (list obs * list obs)) : bool :=
+  check_case_chars k && check_case_tokens k.
